@@ -23,7 +23,10 @@ func (c11) Rule() string {
 		"non-trivial iff at least 2 reads returned and (a fault fired or the scheduler had a real choice between >=2 pending gates); distinct = distinct event-log hash"
 }
 
-var inputClasses = []string{"valid", "valid", "valid", "syntax-early", "syntax-late", "lex-early", "lex-late", "many-errors", "soup", "raw", "empty", "valid-big"}
+var inputClasses = []string{"valid", "valid", "valid", "syntax-early", "syntax-late", "lex-early", "lex-late", "many-errors", "soup", "raw", "empty", "valid-big", "prefixed"}
+
+// specialPrefixes are byte sequences that tools like to treat specially at the start of a file.
+var specialPrefixes = []string{"\xEF\xBB\xBF", "\xEF\xBB", "\xFE\xFF", "\xFF\xFE", "#!/usr/bin/bcl\n", "\x00", "\r\n", "\xEF\xBB\xBF\xEF\xBB\xBF"}
 
 // genInput builds an input of the given class. For lexical classes it
 // returns the offset of the inserted failure (else -1).
@@ -48,6 +51,8 @@ func genInput(r *prng.R, class string, tier string) (src []byte, p *gen.Prog, le
 	}
 	p = gen.Generate(r, cfg)
 	switch class {
+	case "prefixed":
+		return append([]byte(prng.Pick(r, specialPrefixes)), p.Src...), nil, -1
 	case "syntax-early":
 		return gen.WithSyntaxErr(r, p, true), nil, -1
 	case "syntax-late":
